@@ -286,6 +286,26 @@ Fixpoint tree_of (sp : devspec) (strict : bool) (p : prog) (dev : str) : otree :
          all_outcomes)
   end.
 
+(* following one script through such a tree (how a table written by the harness is read) *)
+Definition oidx (o : outcome) : nat :=
+  match o with Done => 0 | Refused => 1 | ErrState => 2 | TLost => 3 | TAfter => 4 end%nat.
+
+Fixpoint walk (t : otree) (sc : list outcome) (log : list step) : obs :=
+  match t with
+  | Leaf f e d => Obs f e d (rev log)
+  | Node ei before c =>
+    let o := hd Done sc in
+    (fix pick (l : list (str * bool * otree)) (n : nat) : obs :=
+       match l with
+       | [] => Obs [] true [] (rev log)
+       | (af, re, t') :: l' =>
+         match n with
+         | O => walk t' (tl sc) (St ei before o af re :: log)
+         | S n' => pick l' n'
+         end
+       end) c (oidx o)
+  end.
+
 (* ---------- the domain ---------- *)
 Definition MODE_DIRECT : N := 0.
 Definition MODE_FAIRMQ : N := 1.
